@@ -92,6 +92,23 @@ def Counter.available (c : Counter) (w : WakerId) : Counter × Bool :=
   else
     (c, (Src.ucAvailable c.count c.capacity false).1)
 
+/-- Waker ids `≥ 4` are **inline-polling** wakers: `Waker::wake` polls the woken task on the spot,
+i.e. it re-enters the counter from inside `task.wake()` — reads `total()` and asks `available(cx)`
+with its own waker (a synchronous executor, a `FuturesUnordered`-style waker).  Ids `0..3` only count. -/
+def inlineWaker (w : WakerId) : Bool := decide (4 ≤ w)
+
+/-- A guard drop as the woken task experiences it: `dec`, and — if the waker it wakes polls inline —
+that task's `total()` and `available(cx)`.  The property says the task is woken *when the drop has
+brought the count below the capacity*: the inline poll runs on the state `dec` leaves behind
+(`dec.1`: count already decremented, waker already taken), not on a half-updated one.
+Second component: what the inline poll saw (`total`, answer of `available`), `none` if nobody polled inline. -/
+def Counter.release (c : Counter) : Counter × Option (Nat × Bool) :=
+  match c.dec.2 with
+  | some w =>
+    if inlineWaker w then ((c.dec.1.available w).1, some (c.dec.1.count, (c.dec.1.available w).2))
+    else (c.dec.1, none)
+  | none => (c.dec.1, none)
+
 /-- a counter, its live guards (ids in creation order) and its `Counter` handles: `handles` ids have
 been handed out (`Counter::new` = 0, then one per `clone`), the ones in `deadHandles` were dropped.
 Handles and guards all own the same `Rc<CounterInner>`: dropping a handle changes nothing else. -/
@@ -110,7 +127,7 @@ def Sys.hasHandle (s : Sys) (h : Nat) : Bool := decide (h < s.handles) && !s.dea
 
 inductive Op where
   | acquire (h : Nat)                 -- `handles[h].get()`
-  | drop (g : Nat)                    -- drop the live guard `g`
+  | drop (g : Nat)                    -- drop the live guard `g` (normally, or during an unwind that is caught)
   | available (h : Nat) (w : WakerId) -- `handles[h].available(cx)` with the waker `w`
   | clone (h : Nat)                   -- `handles[h].clone()`
   | total (h : Nat)                   -- `handles[h].total()`
@@ -121,7 +138,7 @@ deriving Repr, DecidableEq
 
 inductive Obs where
   | guard (id : Nat)
-  | dropped (woke : Option WakerId)
+  | dropped (woke : Option WakerId) (saw : Option (Nat × Bool))   -- `saw`: what an inline-polling woken task saw
   | avail (b : Bool)
   | handle (id : Nat)
   | total (n : Nat)
@@ -138,7 +155,7 @@ def step (s : Sys) : Op → Option (Sys × Obs)
     else none
   | .drop g =>
     if g ∈ s.guards then
-      some ({ s with ctr := s.ctr.dec.1, guards := s.guards.erase g }, .dropped s.ctr.dec.2)
+      some ({ s with ctr := s.ctr.release.1, guards := s.guards.erase g }, .dropped s.ctr.dec.2 s.ctr.release.2)
     else none
   | .available h w =>
     if s.hasHandle h then
